@@ -20,7 +20,8 @@ RULE = (
     "cases = pairs (and trees of 3..8) of spherical/diffuse droplets in d=1..3 with radii "
     "log-uniform over 1e-3..1e3 (one operand may have radius exactly 0), positions N(0,s) with s "
     "over 1e-2..1e2 plus offsets, widths incl. unset; each pair is merged out-of-place, in-place, "
-    "through Class._merge_data and through a numba-compiled caller; trees are merged under two "
+    "through Class._merge_data and through a numba-compiled caller, the operands being obtained through "
+    "a random route (constructor, copy, pickle round trip, deepcopy, from_data, emulsion member, linked data); trees are merged under two "
     "random groupings. Non-trivial = unequal volumes and distinct positions. Distinct = digest "
     "of the case."
 )
@@ -72,7 +73,7 @@ def gen(rng, kind, tier):
             b["radius"] = a["radius"]
         if rng.random() < 0.05:
             b["pos"] = list(a["pos"])
-        return {"a": a, "b": b}
+        return {"a": a, "b": b, "route_a": common.pick_route(rng, 0.6), "route_b": common.pick_route(rng, 0.6)}
     n = int(rng.integers(3, 9))
     ds = [_drop(rng, dim, cls) for _ in range(n)]
     return {"droplets": ds, "order_seed": int(rng.integers(1 << 30))}
@@ -82,10 +83,10 @@ def close(x, y, scale):
     return bool(np.all(np.abs(np.asarray(x, float) - np.asarray(y, float)) <= 8 * EPS * scale))
 
 
-def _mk(d):
+def _mk(d, route=None):
     from .c03 import make_droplet
 
-    return make_droplet(d)
+    return common.via(make_droplet(d), route)
 
 
 def _state(d):
@@ -94,13 +95,15 @@ def _state(d):
 
 
 def judge_pair(case, rec, compiled=None):
-    a, b = _mk(case["a"]), _mk(case["b"])
+    ra_, rb_ = case.get("route_a"), case.get("route_b")
+    a, b = _mk(case["a"], ra_), _mk(case["b"], rb_)
     dim = a.dim
     ba, bb = common.droplet_bytes(a), common.droplet_bytes(b)
     (pa, ra, wa), (pb, rb, wb) = _state(a), _state(b)
     Va, Vb = vol(ra, dim), vol(rb, dim)
     V = Va + Vb
-    label = f"a={case['a']} b={case['b']}"
+    label = f"a={case['a']} b={case['b']} obtained via {ra_}/{rb_}"
+    rec.count(f"route:{ra_}")
     call = common.monitored(rec, "merge", a.merge, b)
     if not rec.check(call.ok, "no-exception", f"merge raised {common.exc_text(call.exc) if call.exc else ''}; {label}"):
         rec.evaluated(nontrivial=False)
@@ -129,7 +132,7 @@ def judge_pair(case, rec, compiled=None):
         ok = close(p2, pm, scale) and close(r2, rm, max(rm, 1e-300)) and (close(w2, wm, max(abs(wm), 1e-300)) or (math.isnan(w2) and math.isnan(wm)))
         rec.check(ok, "commutative", f"a.merge(b)=({pm.tolist()},{rm},{wm}) but b.merge(a)=({p2.tolist()},{r2},{w2}); {label}")
     # in-place
-    a2, b2 = _mk(case["a"]), _mk(case["b"])
+    a2, b2 = _mk(case["a"], ra_), _mk(case["b"], rb_)
     c3 = common.monitored(rec, "merge(inplace)", a2.merge, b2, inplace=True)
     if rec.check(c3.ok, "no-exception", f"in-place merge raised {c3.exc!r}; {label}"):
         rec.check(c3.result is a2, "inplace-returns-self", f"in-place merge returned another object; {label}")
@@ -138,7 +141,7 @@ def judge_pair(case, rec, compiled=None):
         rec.check(ok, "paths-agree", f"in-place ({p3.tolist()},{r3},{w3}) != out-of-place ({pm.tolist()},{rm},{wm}); {label}")
         rec.check(common.droplet_bytes(b2) == bb, "operands-unchanged", f"in-place merge modified the other operand; {label}")
     # class attribute called directly, writing into a third record
-    a4, b4 = _mk(case["a"]), _mk(case["b"])
+    a4, b4 = _mk(case["a"], ra_), _mk(case["b"], rb_)
     out = np.record(np.zeros_like(a4.data))
     c4 = common.monitored(rec, "_merge_data", type(a4)._merge_data, a4.data, b4.data, out=out)
     if rec.check(c4.ok, "no-exception", f"_merge_data raised {c4.exc!r}; {label}"):
